@@ -47,31 +47,14 @@ Proof. revert ys; induction xs as [|x t IH]; intros [|y ys]; cbn [upd_zip length
 Lemma map2_length {X Y Z} (f : X -> Y -> Z) xs ys : length (map2 f xs ys) = Nat.min (length xs) (length ys).
 Proof. revert ys; induction xs as [|x t IH]; intros [|y ys]; cbn [map2 length Nat.min]; auto. Qed.
 
-Lemma bb_fold_length A D xs : forall mins maxs, length mins = D -> length maxs = D ->
-  let r := fold_left (fun '(mins, maxs) v =>
-                 (upd_zip A (fun mn x => if klt A x mn then x else mn) mins v,
-                  upd_zip A (fun mx x => if klt A mx x then x else mx) maxs v)) xs (mins, maxs) in
-  length (fst r) = D /\ length (snd r) = D.
-Proof.
-  induction xs as [|v t IH]; intros mins maxs H1 H2; cbn [fold_left]; auto.
-  apply IH; rewrite upd_zip_length; auto.
-Qed.
-
 Lemma tree_bbox_length A t D xs a b : tree_bbox A t D xs = Some (a, b) -> length a = D /\ length b = D.
 Proof.
-  unfold tree_bbox. destruct xs as [|x0 xs0]; [discriminate|]. intros H.
-  apply (par_fold_opt_inv _ _ (fun ab => length (fst ab) = D /\ length (snd ab) = D)) in H; auto.
-  - intros l y Hl. destruct l; [discriminate|]. injection Hl as <-. unfold bb_fold.
-    apply bb_fold_length; apply repeat_length.
-  - intros [a1 b1] [a2 b2] [H1 H2] [H3 H4]. cbn [fst snd] in *. unfold bb_red. cbn [fst snd].
-    rewrite !map2_length. lia.
+  unfold tree_bbox. destruct xs as [|x0 xs0]; [discriminate|]. intros H. injection H as <- <-.
+  rewrite !map_length, seq_length. auto.
 Qed.
 
 Lemma tree_bbox_some A t D xs : xs <> [] -> tree_bbox A t D xs <> None.
-Proof.
-  unfold tree_bbox. destruct xs as [|x0 xs0]; [congruence|]. intros _.
-  apply par_fold_opt_some; [|discriminate]. intros l Hl. destruct l; congruence.
-Qed.
+Proof. unfold tree_bbox. destruct xs as [|x0 xs0]; [congruence|discriminate]. Qed.
 
 Lemma tree_reduce_some {X} (op : X -> X -> X) t xs : xs <> [] -> tree_reduce op t xs <> None.
 Proof.
